@@ -168,7 +168,7 @@ pub fn wf_ignoring_raw(ls: &[Line]) -> bool {
     wf(&rest)
 }
 
-pub const KEYS: [&str; 8] = ["A", "Source", "X-Y", "~k", "a1", "Foo_bar", "!b#c", "A"];
+pub const KEYS: [&str; 10] = ["A", "Source", "X-Y", "~k", "a1", "Foo_bar", "!b#c", "A", "a", "SOURCE"];
 pub const FIRSTS: [&str; 12] = ["b", "1.0-1", "é 😀", "x: y", "a # b", "", "foo, ", ":c", "#d", "\u{a0}José", "\u{3000}x\u{b}", "\u{feff}y"];
 pub const CONTS: [&str; 11] = ["b", ".", "é 😀", "x: y", "a # b", "foo,", "~ ", "-- ", "\u{a0}z", "\u{c}w", "\u{2028}v"];
 pub const WSS: [&str; 5] = ["", " ", "  ", "\t", " \t"];
